@@ -3,7 +3,7 @@ From Coq Require Import List Bool Arith.
 From BT Require Import C16.Cache.
 Import ListNotations.
 
-Record scase := { s_runs : list (hook * nat); s_obs : list code }.
+Record scase := { s_runs : list (hook * nat * bool); s_obs : list code }.    (* the flag: this interpreter writes bytecode *)
 
 Definition code_eqb (a b : code) : bool :=
   match a, b with
@@ -19,7 +19,7 @@ Fixpoint codes_eqb (a b : list code) : bool :=
   | _, _ => false
   end.
 
-Definition check_scase (k : scase) : bool := codes_eqb (runs fs0 (s_runs k)) (s_obs k).
+Definition check_scase (k : scase) : bool := codes_eqb (runsw fs0 (s_runs k)) (s_obs k).
 
 Fixpoint sfailing_from (i : nat) (ks : list scase) : list nat :=
   match ks with
